@@ -7,7 +7,7 @@ explored state graph of Polar's normalised program (IR model):
   * init_values_dict[M] == E_0(M);  closure: monomials(rhs) subset of keys(R) + {1};
   * recurrence_matrix . E_n == E_{n+1} for n < N (coefficient extraction incl. inhomogeneous column).
 """
-from ..common import base_programs, exc_name, THOROUGH
+from ..common import base_programs, abstraction_programs, exc_name, THOROUGH
 from ..model import Model, NotApplicable, CapHit
 from ..refparser import parse_program, NotPolynomial
 from ..poly import Poly, ZERO, ONE, parse_poly
@@ -37,7 +37,7 @@ def cases(tier, seed):
     N = 3 if tier == "quick" else 4
     deg = 2 if tier == "quick" else 3
     lim = 5 if tier == "quick" else 9
-    for text in base_programs(tier):
+    for text in base_programs(tier) + abstraction_programs(tier):
         out.append({"input": {"text": text, "goals": gen.goals_for(text, deg, lim)}, "N": N})
     return out
 
@@ -76,9 +76,12 @@ def run_case(case):
             with cpu_limit(40):
                 program = polar.normalize(polar.parse(text))
                 irp = irmodel.conv_program(program)
-                if getattr(irp, "abstracted", None):
-                    raise NotApplicable("abstraction")
                 m = Model(irp, max_states=3000)
+                if getattr(irp, "abstracted", None):
+                    # conditions abstracted as coins: the recurrences are judged on the abstracted program, each coin
+                    # carrying the probability of its condition (computed by the model)
+                    m.params = irmodel.abstraction_values(irp)
+                    stats["abstracted_programs"] = 1
                 m.run(N + 1)
         except (NotApplicable, NotPolynomial, CapHit):
             res["status"] = "na"
@@ -126,7 +129,7 @@ def run_case(case):
                     # init values
                     if viol is None:
                         for mp_, (mk, rhs) in keys.items():
-                            iv = polar.sym_to_poly(recs.init_values_dict[mk])
+                            iv = polar.sym_to_poly(recs.init_values_dict[mk]).subs(m.params)
                             e0 = m.moment(mp_, 0)
                             stats["evaluations"] += 1
                             if iv != e0:
@@ -166,14 +169,14 @@ def run_case(case):
                                 for j in range(len(vec)):
                                     a = A[i, j]
                                     if a != 0:
-                                        tot = tot + polar.sym_to_poly(a) * vec[j]
+                                        tot = tot + polar.sym_to_poly(a).subs(m.params) * vec[j]
                                 stats["evaluations"] += 1
                                 if tot != nxt[i]:
                                     viol = {"kind": "matrix row", "row": i, "n": n, "A.E_n": tot.to_text(), "E_n+1": nxt[i].to_text()}
                                     break
                             if viol:
                                 break
-                        iv = [polar.sym_to_poly(x) for x in recs.init_values_vector]
+                        iv = [polar.sym_to_poly(x).subs(m.params) for x in recs.init_values_vector]
                         e0 = [m.moment(x, 0) for x in mons] + ([ONE] if inh else [])
                         if viol is None and iv != e0:
                             viol = {"kind": "init vector"}
